@@ -857,6 +857,9 @@ func c01FloatMarking(c *Ctx) {
 			return
 		}
 		paths := c.serSX().Run(fd)
+		for i, p := range paths {
+			paths[i] = mapPath(p, func(t Term) (Term, bool) { return c.normByteStrings(t), true })
+		}
 		v := c.view(fd)
 		n := 0
 		for i, p := range paths {
